@@ -1008,8 +1008,34 @@ func (p *pkgInfo) paramOnlyQuoted(nm string, pos int) bool {
 	return ok
 }
 
-// every use of local variable name (besides its definition) is NewStringVal(name)
+// every use of local variable name is NewStringVal(name), apart from its own (re)definitions
+// (x := ..., x = f(x)): the text only ever reaches SQL through the escaper
 func (c *fnCtx) varOnlyQuoted(name string) bool {
+	skip := map[*ast.Ident]bool{}
+	ast.Inspect(c.body, func(n ast.Node) bool {
+		as, ok := n.(*ast.AssignStmt)
+		if !ok {
+			return true
+		}
+		defines := false
+		for _, l := range as.Lhs {
+			if id, ok := l.(*ast.Ident); ok && id.Name == name {
+				skip[id] = true
+				defines = true
+			}
+		}
+		if defines {
+			for _, r := range as.Rhs {
+				ast.Inspect(r, func(m ast.Node) bool {
+					if id, ok := m.(*ast.Ident); ok && id.Name == name {
+						skip[id] = true
+					}
+					return true
+				})
+			}
+		}
+		return true
+	})
 	uses, quoted := 0, 0
 	ast.Inspect(c.body, func(n ast.Node) bool {
 		switch x := n.(type) {
@@ -1020,13 +1046,13 @@ func (c *fnCtx) varOnlyQuoted(name string) bool {
 				}
 			}
 		case *ast.Ident:
-			if x.Name == name {
+			if x.Name == name && !skip[x] {
 				uses++
 			}
 		}
 		return true
 	})
-	return quoted > 0 && uses == quoted+len(c.defs[name])
+	return quoted > 0 && uses == quoted
 }
 
 func (c *fnCtx) quotedLater(stack []ast.Node, e ast.Expr) bool {
